@@ -145,6 +145,7 @@ Definition run_shortw (a : list N) : list N :=
   else
     let k' := if arg a 7 =? 1 then PostIO else PreIO in
     if op =? 3 then let '(r, out) := encode_ranges_validated B3 data (intact k' data bs) q in enc_rc r ++ [blen B3 out; dg out]
+    else if op =? 5 then let '(r, out) := encode_ranges B3 data (intact k' data bs) q in enc_rc r ++ [blen B3 out; dg out]
     else let '(ys, r) := valid_ranges B3 (intact k' data bs) data q in
          let out := ranges_bytes ys in
          (match r with Ok _ => [0; 0] | Err e => [6; kcode e] | Panic => [PANIC; 0] end) ++ [blen B3 out; dg out].
@@ -153,6 +154,8 @@ Definition holds_shortw (a o : list N) : bool :=
   let bs := arg a 3 in let op := arg a 4 in let cap := arg a 6 in
   let q := skipn 8 a in
   negb (existsb (fun x => x =? PANIC) o) &&
+  (* (the non-validating encoders, ops 1 and 5, are compared with the model only: above block size 0 they
+     send partially selected groups whole, finding F6) *)
   if (op =? 0) || (op =? 3) then list_eqb o (limit_out (if op =? 0 then cap else 18446744073709551615) [0; 0] (flat B3 (honest B3 data bs q)))
   else if op =? 2 then list_eqb o (limit_out cap [0; 0] (spec_outboard B3 true data bs))
   else true.
